@@ -32,7 +32,7 @@ CHECKS['C02'] = dict(
          'MatId add/remove without overflow for every material configuration legal play can produce, compact serialisation format, staticInitialize table, bookHash/historyHash index in range.',
     note=TRUST + 'Zobrist key tables and piece values are uninterpreted functions (arbitrary tables; row EMPTY pinned to zero). Fold ghosts: the meta-invariant ghost == from-scratch fold rests on the single-square update lemma '
          '(commutativity/associativity of xor and modular addition) which is not machine-checked yet, and on the pinned list of functions that write squares[]. Induction over move histories is a paper argument. '
-         'quick tier: mutators, makeMove, the make/unmake identity as a complete 6-way case split on the moving piece kind (7-8 min per case, in parallel), MatId, serialisation; thorough repeats the identity as one query (about 18 min). Not decided: FEN text round trip (std::string), deSerialize/computeZobristHash loops, Position copy/assignment.',
+         'quick tier: mutators, makeMove, MatId, serialisation; thorough adds the make/unmake identity, once as a complete 6-way case split on the moving piece kind (7-8 min per case, in parallel) and once as one query (about 18 min). Not decided: FEN text round trip (std::string), deSerialize/computeZobristHash loops, Position copy/assignment.',
     technique='CBMC function contracts on extracted real code (dfcc) with ghost model fields and spliced ghost updates, SAT back end',
     design='4.2')
 CHECKS['C11'] = dict(
@@ -56,7 +56,7 @@ CHECKS['C12'] = dict(
 CHECKS['C20'] = dict(
     text='Partial. Deductive proof (CBMC contracts, dfcc) on the extracted text of bitSet.hpp (both instantiations used by the solver: BitSet<64,-16> and BitSet<192,0>, 17 operations each) against a set spec '
          '(ghost element + exact word-level facts), of CspSolver::makeEven/makeOdd/addMinVal/addMaxVal (stored domain is exactly the intersection), getBitVal (returns a member of the domain for every preference order; '
-         'minimum for SMALL, maximum for LARGE), addIneq/addEq (exactly one stored inequality per requested one, over the same variables and equivalent to the requested relation for arbitrary values; emplace_back is an assumed stub), the loop of solve() that attaches every constraint to both of its variables (loop contract), and the SOUNDNESS of the backtracking search solveRecursive: '
+         'minimum for SMALL, maximum for LARGE), addIneq/addEq (exactly one stored inequality per requested one, over the same variables and equivalent to the requested relation for arbitrary values; emplace_back is an assumed stub), the loop of solve() that attaches every constraint to both of its variables (loop contract), and the SOUNDNESS of the backtracking search solveRecursive (consistency test in the quick tier, the search function itself in the thorough tier, 8 min): '
          'its consistency test accepts a value exactly when every attached constraint between assigned variables holds (fragment with loop contract and a ghost witness for every rejection), and when solveRecursive returns true '
          'every constraint is satisfied and every value lies in its domain (outer loop contract; the recursive call is replaced by the same contract).',
     note=TRUST + 'NOT decided: makeArcConsistent (ghost-solution invariant written and cut mechanically; base and exit obligations close, the inductive step did not within 15 min) and the completeness of solveRecursive (no solution missed); '
@@ -68,13 +68,13 @@ CHECKS['C01'] = dict(
     text='Partial, layered. Deductive proof (CBMC contracts) on the extracted text of bitBoard.hpp/.cpp, moveGen.hpp, moveGen.cpp: layer 0 bit primitives (firstBit/lastBit/extractBit/bitCount generic variants, mirror, fill, pawn-attack masks, '
          'distances, Square methods, getDirection+dirTable) for all 2^64 masks / all square pairs; initialisation of the king/knight/pawn attack tables and the en-passant masks (fragments of staticInitialize) and their lookups; '
          'the attack test sqAttacked<wtm> (both colours) and inCheck equal the rules-of-chess spec on a fully symbolic board; the list helpers addMovesByMask/addPawnMovesByMask<wtm>/addPawnDoubleMovesByMask append exactly the moves of their mask '
-         '(loop contracts, ghost move monitor); the generators pseudoLegalMoves<w/b> (list == the pseudo-legal moves under the FIDE movement rules incl. castling conditions, double step, en passant, promotions, each once), '
-         'pseudoLegalCaptures<w/b> (list == captures, en-passant captures and queen/knight promotions) and checkEvasions<w/b> (target filter == capture the single checker or interpose; list == the evasion candidates) - each generator verified '
-         'as contiguous fragments that tile its body plus a composition group; pseudoLegalCapturesAndChecks<w/b> the same way for what is decided about it: only pseudo-legal moves, none twice, every capture / en-passant capture / queen-or-knight promotion present; the head of removeIllegal (in-check flag, king square, king rays); thorough tier adds the piece sections of checkEvasions (15 min each), givesCheck == playing the move and testing the opponent king (6-way case split, 10-36 min each) '
+         '(loop contracts, ghost move monitor); [quick tier:] the generators pseudoLegalMoves<w/b> (list == the pseudo-legal moves under the FIDE movement rules incl. castling conditions, double step, en passant, promotions, each once), '
+         'and checkEvasions<w/b> (target filter == capture the single checker or interpose; list == the evasion candidates); [thorough tier:] pseudoLegalCaptures<w/b> (list == captures, en-passant captures and queen/knight promotions) - each generator verified '
+         'as contiguous fragments that tile its body plus a composition group; [thorough tier:] pseudoLegalCapturesAndChecks<w/b> the same way for what is decided about it: only pseudo-legal moves, none twice, every capture / en-passant capture / queen-or-knight promotion present; the head of removeIllegal (in-check flag, king square, king rays); thorough tier adds the piece sections of checkEvasions (15 min each), givesCheck == playing the move and testing the opponent king (6-way case split, 10-36 min each) '
          'and the per-move verdict of both loops of removeIllegal (king-ray shortcut == playing the move; 12 cases, 5-60 min each).',
     note=TRUST + 'Assumed contracts: BitBoard::rookAttacks/bishopAttacks return the ray sets (magic lookup tables not proved), '
          'MoveList::addMove appends its move (A-MAXMOVES: capacity 256 never exceeded). Composition groups abstract the spec functions as uninterpreted functions (DESIGN 13.7). '
-         'NOT decided: isLegal (only some cases of the 12-way split discharge, not claimed); in removeIllegal the play-the-move branch is replaced by its specification and the list compaction is pinned text (DESIGN 13.11); that pseudoLegalCapturesAndChecks contains every checking quiet move; FEN text layer. Counterexamples of the generator, givesCheck and inCheck groups are replayed on the real MoveGen (replay/movegen_replay).',
+         'isLegal (verdict == playing the move, position restored) was proved ONCE for all 12 cases of its complete split (7 min to 3.5 h per case, 22 CPU hours; evidence_archive/C01-isLegal-deep.json) and is NOT re-run by the registered commands (VERIF_DEEP=1 does): a later change of isLegal goes unnoticed by them. NOT decided: in removeIllegal the play-the-move branch is replaced by its specification and the list compaction is pinned text (DESIGN 13.11); that pseudoLegalCapturesAndChecks contains every checking quiet move; FEN text layer. Counterexamples of the generator, givesCheck and inCheck groups are replayed on the real MoveGen (replay/movegen_replay).',
     technique='CBMC function and loop contracts on extracted real code and tiled fragments (dfcc), ghost move monitor, composition with uninterpreted spec functions, SAT back end',
     design='4.1, 13.7')
 CHECKS['C04'] = dict(
